@@ -316,6 +316,9 @@ func genPESSpec(r *core.PRNG, rich bool) PESSpec {
 		p.HasExt = true
 		if r.Chance(1, 2) {
 			p.Private = r.Bytes(16)
+			if r.Chance(1, 3) {
+				p.Private = p.Private[:r.Range(1, 15)] // shorter than the 16-byte field: the writer pads with zeros
+			}
 		}
 		if r.Chance(1, 2) {
 			p.HasSeq, p.Seq, p.MPEG1ID, p.OrigStuff = true, uint8(r.Intn(128)), uint8(r.Intn(2)), uint8(r.Intn(64))
